@@ -6,6 +6,7 @@ import (
 	"fmt"
 	"math/rand"
 	"runtime"
+	"runtime/debug"
 	"sort"
 	"strings"
 	"sync"
@@ -82,7 +83,7 @@ func fifoModel(bound int) porcupine.Model {
 			switch in.op {
 			case "sub":
 				if bound > 0 && n >= bound {
-					return out == "full", st
+					return out == "rejected", st
 				}
 				return out == "ok", st + in.id + ","
 			case "next":
@@ -113,6 +114,9 @@ type CVerdict struct {
 	overlap int // recorded operations whose call/return interval overlaps another client's operation
 	nFull   int
 	sig     string
+	// evidence only
+	nFullIdentity int
+	keys          int // keys in the database when the clients were done
 }
 
 // JudgeConc runs the planned clients concurrently against one real sequencer and judges the
@@ -137,15 +141,24 @@ func JudgeConc(h CHistory) *CVerdict {
 			}
 		}
 	}
-	var clock atomic.Int64
+	var clock, nFullIdentity atomic.Int64
 	var mu sync.Mutex
 	var recs []CRec
+	var panics []string
 	start := make(chan struct{})
 	var wg sync.WaitGroup
 	for c, ops := range h.Clients {
 		wg.Add(1)
 		go func(c int, ops []COp) {
 			defer wg.Done()
+			defer func() {
+				// a panic of the code under test on a client goroutine must not take the check down
+				if p := recover(); p != nil {
+					mu.Lock()
+					panics = append(panics, fmt.Sprintf("client %d: %v\n%s", c, p, debug.Stack()))
+					mu.Unlock()
+				}
+			}()
 			<-start
 			for _, op := range ops {
 				rec := CRec{Client: c, Op: op.Kind, In: op.ID}
@@ -158,6 +171,13 @@ func JudgeConc(h CHistory) *CVerdict {
 				}
 				rec.Ret = clock.Add(1)
 				rec.Out = o.String()
+				if o.Kind == "rejected" {
+					// any error is a rejection; which error is not the property's business
+					rec.Out = "rejected"
+					if o.fullIdentity {
+						nFullIdentity.Add(1)
+					}
+				}
 				mu.Lock()
 				recs = append(recs, rec)
 				mu.Unlock()
@@ -181,6 +201,9 @@ func JudgeConc(h CHistory) *CVerdict {
 		v.Kind, v.Clause, v.Detail = "violation", clause, detail
 		return v
 	}
+	if len(panics) > 0 {
+		return fail("no-panic", "the code under test panicked: "+panics[0])
+	}
 	accepted := map[string]bool{}
 	rejected := map[string]bool{}
 	delivered := map[string]int{}
@@ -188,26 +211,21 @@ func JudgeConc(h CHistory) *CVerdict {
 		switch {
 		case r.Op == "sub" && r.Out == "ok":
 			accepted[r.In] = true
-		case r.Op == "sub" && r.Out == "full":
+		case r.Op == "sub":
+			// refused; whether the queue may have been full at that moment is decided by the
+			// linearizability check
 			rejected[r.In] = true
 			v.nFull++
-		case r.Op == "sub":
-			return fail("admission", fmt.Sprintf("client %d: submission of %s returned %s", r.Client, r.In, r.Out))
 		case r.Op == "next" && strings.HasPrefix(r.Out, "->"):
 			delivered[strings.TrimPrefix(r.Out, "->")]++
 		case r.Op == "next" && r.Out != "empty":
 			return fail("fifo-model", fmt.Sprintf("client %d: GetNextBatch returned %s", r.Client, r.Out))
 		}
 	}
-	if k := p.outside(); k != "" {
-		return fail("no-trace", "the queue wrote outside its prefix: "+k)
-	}
-	if h.Bound > 0 {
-		v.hits["bound"]++
-		if k := len(im.Keys(queuePrefix)); k > h.Bound {
-			return fail("bound", fmt.Sprintf("%d batches stored, bound %d", k, h.Bound))
-		}
-	}
+	v.nFullIdentity = int(nFullIdentity.Load())
+	v.keys = len(im.Keys(""))
+	// the bound itself (never more than Bound accepted and not yet handed out; refused only when that
+	// many are) is part of the model the recorded history is checked against below
 	// drain by a single client (optionally in a new process over the same datastore)
 	ops := make([]porcupine.Operation, 0, len(recs)+20)
 	for _, r := range recs {
@@ -301,6 +319,9 @@ func JudgeConc(h CHistory) *CVerdict {
 	switch res {
 	case porcupine.Ok:
 		v.hits["linearizable"]++
+		if h.Bound > 0 {
+			v.hits["bound"]++
+		}
 	case porcupine.Illegal:
 		return fail("linearizable", fmt.Sprintf("the recorded history of %d operations by %d clients (bound %d) has no linearization in the bounded FIFO model", len(ops), len(h.Clients), h.Bound))
 	default:
